@@ -45,6 +45,17 @@ fn case(inp: &[u64]) -> Result<(), String> {
     chk1!("SelectSmall<3,13>", SelectSmall::<3, 13, _>::new(RankSmall::<3, 13, _>::new(b.clone())));
     chk0!("SelectZeroSmall<2,9>", SelectZeroSmall::<2, 9, _>::new(RankSmall::<2, 9, _>::new(b.clone())));
     chk0!("SelectZeroSmall<1,10>", SelectZeroSmall::<1, 10, _>::new(RankSmall::<1, 10, _>::new(b.clone())));
+    // rank through wrapper stacks (C01: forwarding impls): rank(p) = ones among the first min(p, len) bits, for p beyond len too
+    { let pref: Vec<usize> = { let mut v = vec![0usize; len + 1]; for i in 0..len { v[i + 1] = v[i] + b[i] as usize; } v };
+      let ps: Vec<usize> = { let mut g = Rng(seed ^ 5); let mut v = vec![0, len, len + 1, len + 77, len / 2, len.saturating_sub(1)]; for _ in 0..40 { v.push(g.below(len as u64 + 3) as usize); } v };
+      macro_rules! chkr { ($name:expr, $s:expr) => {{ let s = $s; for &p in &ps { let want = pref[p.min(len)]; if s.rank(p) != want { return Err(format!("{}: rank({}) = {} expected {}", $name, p, s.rank(p), want)); }
+            if s.rank_zero(p) != p - want { return Err(format!("{}: rank_zero({}) = {} expected {}", $name, p, s.rank_zero(p), p - want)); } }
+            if s.num_ones() != ones.len() || s.len() != len { return Err(format!("{}: num_ones / len", $name)); } }} }
+      chkr!("Select9(Rank9)", Select9::new(Rank9::new(b.clone())));
+      chkr!("SelectAdapt(Rank9)", SelectAdapt::new(Rank9::new(b.clone()), 3));
+      chkr!("SelectZeroAdaptConst(SelectAdaptConst(Rank9))", SelectZeroAdaptConst::<_, _>::new(SelectAdaptConst::<_, _>::new(Rank9::new(b.clone()))));
+      chkr!("SelectSmall(RankSmall<1,9>)", SelectSmall::<1, 9, _>::new(RankSmall::<1, 9, _>::new(b.clone())));
+      chkr!("SelectZeroSmall(SelectSmall(RankSmall<3,13>))", SelectZeroSmall::<3, 13, _>::new(SelectSmall::<3, 13, _>::new(RankSmall::<3, 13, _>::new(b.clone())))); }
     // nesting: ones over zeros over rank
     { let s = SelectAdapt::new(SelectZeroAdapt::new(nb(), 3), 3);
       for r in probe(&ones) { if s.select(r) != Some(ones[r]) { return Err(format!("nested: select({})", r)); } }
